@@ -491,7 +491,7 @@ func init() {
 		"the kernel's open/create/rename/unlink semantics as summarised in the model's primitive steps (parameter; crash durability and rename atomicity are the platform's)")
 	core.Register(&core.Property{
 		ID: "C20", PropsModule: "GoDebian.Props.C20", TieModule: "GoDebian.Tie.Upload",
-		Facts: []string{"upload.DSC.Copy:order", "upload.DSC.Move:order", "upload.DSC.Remove:order", "upload.Changes.Copy:order", "upload.Changes.Move:order", "upload.Changes.Remove:order",
+		Facts: []string{"upload.DSC.Copy:order", "upload.DSC.Move:order", "upload.DSC.Remove:order", "upload.Changes.Copy:order", "upload.Changes.Move:order", "upload.Changes.Remove:order", "upload.internal.Copy:calls",
 			"fingerprint:control.DSC.Copy", "fingerprint:control.DSC.Move", "fingerprint:control.DSC.Remove", "fingerprint:control.DSC.AbsFiles", "fingerprint:control.DSC.checkFiles",
 			"fingerprint:control.Changes.Copy", "fingerprint:control.Changes.Move", "fingerprint:control.Changes.Remove", "fingerprint:control.Changes.AbsFiles", "fingerprint:control.Changes.checkFiles",
 			"fingerprint:control.checkListedFilename", "fingerprint:internal.Copy"},
